@@ -5,6 +5,7 @@ import Umya.Driver.C20
 import Umya.Driver.C12
 import Umya.Driver.C16
 import Umya.Driver.C18
+import Umya.Driver.C13
 
 structure DState where
   c10 : Umya.Driver.C10.St := {}
@@ -15,6 +16,7 @@ def dispatch (st : DState) (line : String) : DState × String :=
   match line.trimAscii.toString.splitOn " " with
   | "c17" :: args => (st, Umya.Driver.C17.handle args)
   | "c10" :: args => let (s, r) := Umya.Driver.C10.handle st.c10 args; ({ st with c10 := s }, r)
+  | "c13" :: args => (st, Umya.Driver.C13.handle args)
   | "c18" :: args => (st, Umya.Driver.C18.handle args)
   | "c16" :: args => (st, Umya.Driver.C16.handle args)
   | "c12" :: args => (st, Umya.Driver.C12.handle args)
